@@ -50,8 +50,12 @@ fn batch_to_response(batch: Batch) -> BatchResponse {
         batch_total_liquid_stake: batch.batch_total_liquid_stake,
         expected_native_unstaked: batch.expected_native_unstaked.unwrap_or(Uint128::zero()),
         received_native_unstaked: batch.received_native_unstaked.unwrap_or(Uint128::zero()),
-        next_batch_action_time: Timestamp::from_seconds(
-            batch.next_batch_action_time.unwrap_or(0u64),
+        // deadlines are stored in seconds; do not overflow when converting a very large one
+        next_batch_action_time: Timestamp::from_nanos(
+            batch
+                .next_batch_action_time
+                .unwrap_or(0u64)
+                .saturating_mul(1_000_000_000),
         ),
         status: batch.status.as_str().to_string(),
         unstake_request_count: batch.unstake_requests_count.unwrap_or(0), // Fallback. Only is none if migration failed. Would be set in updates for new batches though
